@@ -93,6 +93,24 @@ func vh_C05_law_MinusDifference() {
 	vfReach("end")
 }
 
+// Difference with three operands: in the result iff in the first operand and in NEITHER of the others
+func vh_C05_law_Difference3() {
+	vfSetMapOrder(2)
+	a, b, c := c05NonEmpty("a"), vfIntList("b", 2, 0), vfIntList("c", 2, 0)
+	if len(b) == 0 || len(c) == 0 {
+		vfAssume(false)
+	}
+	x := vfInt("x")
+	var r []int
+	if !vfNoPanic("nopanic", func() { r = Difference(a, b, c) }) {
+		return
+	}
+	vfAssert("difference-member", vfMember(r, x) == vfAnd(vfMember(a, x), vfAnd(!vfMember(b, x), !vfMember(c, x))))
+	vfAssert("difference-nodup", vfNoDup(r))
+	vfAssert("difference-order", vfSliceEq(r, ref03Distinct(ref03Filter(func(v, i int) bool { return vfAnd(!vfMember(b, v), !vfMember(c, v)) }, a))))
+	vfReach("end")
+}
+
 func vh_C05_law_Subset() {
 	a, b := c05NonEmpty("a"), c05NonEmpty("b")
 	var sub, sup bool
